@@ -769,7 +769,9 @@ pub fn run_property(prop: &Property, opts: &RunOpts) -> i32 {
 
     // 4. vacuity guard
     let mut starved = vec![];
-    if violations.is_empty() && opts.only_sub.is_none() && total.internal_error.is_none() {
+    // VERIF_CASE_SCALE < 1 (mutation campaigns, coverage measurements) runs fewer cases than the floors were measured for
+    let scaled_down = std::env::var("VERIF_CASE_SCALE").ok().and_then(|s| s.parse::<f64>().ok()).map(|x| x < 1.0).unwrap_or(false);
+    if violations.is_empty() && opts.only_sub.is_none() && total.internal_error.is_none() && !scaled_down {
         for (class, q, t) in &prop.floors {
             let min = opts.tier.pick(*q, *t);
             let got = total.classes.get(*class).copied().unwrap_or(0);
